@@ -629,6 +629,22 @@ Definition collapse_witness : prog :=
 Definition cond_x_given (ev : state -> bool) (n : nat) : Qc :=
   cond_exp (run no_law collapse_witness n st0) ev (fun s => s "x").
 
+(* the old rule refuted: the old stored guard of the witness is not its guard, the loop has
+   terminated with positive probability after 3 iterations, and conditioning on the negated old
+   stored guard gives a different value (7/15) than conditioning on termination (1) *)
+Theorem collapse_guard_old_rule_refuted :
+  exists (p : prog) (f : state -> Qc) (n : nat),
+    stored_guard_old 2 p <> p_guard p /\
+    prob (run no_law p n st0) (stopped p) <> 0 /\
+    cond_exp (run no_law p n st0) (stopped p) f <>
+    cond_exp (run no_law p n st0) (fun s => negb (holds (stored_guard_old 2 p) s)) f.
+Proof.
+  exists collapse_witness, (fun s => s "x"), 3%nat. split; [|split].
+  - vm_compute. discriminate.
+  - vm_compute. discriminate.
+  - vm_compute. discriminate.
+Qed.
+
 (* ---- more executable helpers for the harness (no theorem depends on them) ---- *)
 (* the same oracle for an arbitrary event "cond false" instead of the program's own guard
    (used to attribute a mismatch to the guard Polar stored) *)
